@@ -4,4 +4,4 @@
 cd "$(dirname "$0")/../coq" || exit 1
 mods=$(ls Props/C*.v | sed 's#Props/\(.*\)\.v#PFF.Props.\1#' | tr '\n' ' ')
 { echo "# coqchk -silent -o -Q . PFF $mods"; echo "# $(coqchk --version 2>&1 | head -1)"; date -u; 
-  timeout 7200 coqchk -silent -o -Q . PFF $mods 2>&1 | tail -60; echo "exit: $?"; } > ../evidence/coqchk.txt
+  timeout 7200 coqchk -silent -o -Q . PFF $mods 2>&1 | tail -400; echo "exit: $?"; } > ../evidence/coqchk.txt
